@@ -185,10 +185,12 @@ type c17Cfg struct {
 	Doc   *mocrelay.NIP11 `json:"nip11,omitempty"`
 	Mask  int             `json:"nip11_mask,omitempty"`
 	Now   int64           `json:"now"`
+
+	FromNIP11 bool `json:"built_by_BuildMiddlewareFromNIP11,omitempty"`
 }
 
 func (c *c17Cfg) handler(down mocrelay.Handler) mocrelay.Handler {
-	if c.Phase == "nip11" {
+	if c.Phase == "nip11" || c.FromNIP11 {
 		return mocrelay.BuildMiddlewareFromNIP11(c.Doc)(down)
 	}
 	h := down
@@ -773,6 +775,8 @@ type c17Sess struct {
 	depth  int
 
 	buildPanic string // applying the middleware (chain) to the handler panicked
+	h          mocrelay.Handler
+	built      time.Time
 }
 
 func c17IsSync(msg mocrelay.ClientMsg) (string, bool) {
@@ -789,7 +793,8 @@ func c17IsSync(msg mocrelay.ClientMsg) (string, bool) {
 	return "", false
 }
 
-func c17Start(cfg *c17Cfg) *c17Sess {
+// c17Build creates the recording handler and applies the middleware(s) to it.
+func c17Build(cfg *c17Cfg) *c17Sess {
 	s := &c17Sess{
 		cfg:    cfg,
 		recv:   make(chan mocrelay.ClientMsg, 1024),
@@ -799,8 +804,14 @@ func c17Start(cfg *c17Cfg) *c17Sess {
 		done:   make(chan error, 1),
 		depth:  len(cfg.MWs),
 	}
-	down := mocrelay.HandlerFunc(func(ctx context.Context, send chan<- mocrelay.ServerMsg, recv <-chan mocrelay.ClientMsg) error {
+	down := mocrelay.HandlerFunc(func(octx context.Context, send chan<- mocrelay.ServerMsg, recv <-chan mocrelay.ClientMsg) error {
+		// the emitter is joined before the handler returns, so that a handler value
+		// can serve a second session without an old emitter taking its script
+		ctx, icancel := context.WithCancel(octx)
+		emDone := make(chan struct{})
+		defer func() { icancel(); <-emDone }()
 		go func() {
+			defer close(emDone)
 			for {
 				select {
 				case <-ctx.Done():
@@ -837,10 +848,41 @@ func c17Start(cfg *c17Cfg) *c17Sess {
 		s.buildPanic = fmt.Sprint(perr)
 		return s
 	}
+	s.h = h
+	s.built = time.Now()
+	return s
+}
+
+// serve starts one session on the handler built by c17Build.
+func (s *c17Sess) serve() *c17Sess {
 	ctx, cancel := context.WithCancel(context.Background())
 	s.cancel = cancel
-	go func() { s.done <- h.ServeNostr(ctx, s.send, s.recv) }()
+	h, send, recv, done := s.h, s.send, s.recv, s.done
+	go func() { done <- h.ServeNostr(ctx, send, recv) }()
 	return s
+}
+
+func c17Start(cfg *c17Cfg) *c17Sess {
+	s := c17Build(cfg)
+	if s.buildPanic != "" {
+		return s
+	}
+	return s.serve()
+}
+
+// reserve starts a second session on the same (by now older) handler value; the
+// previous session must have been finished and have returned.
+func (s *c17Sess) reserve() *c17Sess {
+	s.recv = make(chan mocrelay.ClientMsg, 1024)
+	s.send = make(chan mocrelay.ServerMsg, 1024)
+	s.done = make(chan error, 1)
+	for len(s.script) > 0 {
+		<-s.script
+	}
+	for len(s.seen) > 0 {
+		<-s.seen
+	}
+	return s.serve()
 }
 
 type c17SyncResult struct {
@@ -1493,6 +1535,23 @@ func c17RunSession(rep *vk.Report, cfg *c17Cfg, r *rand.Rand, tag string, nBatch
 		}
 	}
 
+	finished = true
+	if !c17EndSession(rep, s, cfg, tag, models, start) {
+		return
+	}
+	rep.Count(phase+"_sessions", 1)
+	if models[0].dead && len(models) > 1 {
+		rep.Count("quota_sessions_consistent_only_with_outer_model", 1)
+	}
+	if len(models) > 1 && models[1].dead {
+		rep.Count("quota_sessions_consistent_only_with_inner_model", 1)
+	}
+}
+
+// c17EndSession resolves the rejections still owed and ends the session; false = a
+// violation was reported.
+func c17EndSession(rep *vk.Report, s *c17Sess, cfg *c17Cfg, tag string, models []*c17Quota, start time.Time) bool {
+	phase := cfg.Phase
 	// rejections still owed: bounded passive wait (nothing is fed any more), then the
 	// session is ended by closing the inbound channel; only what is still absent after
 	// ServeNostr returned is missing
@@ -1523,7 +1582,6 @@ func c17RunSession(rep *vk.Report, cfg *c17Cfg, r *rand.Rand, tag string, nBatch
 		}
 		t.Stop()
 	}
-	finished = true
 	var extraD []mocrelay.ClientMsg
 	var extraO []mocrelay.ServerMsg
 	var returned bool
@@ -1588,15 +1646,191 @@ func c17RunSession(rep *vk.Report, cfg *c17Cfg, r *rand.Rand, tag string, nBatch
 		if lost {
 			c17Lost.Add(1)
 		}
+		return false
+	}
+	return true
+}
+
+// ---------------------------------------------------------------------------
+// aged middlewares: the created_at boundaries move with the clock for as long as a
+// middleware value, a NIP-11 chain or a session lives, not only right after it was
+// built. Every configuration is built (and a first session started) once, left alone
+// for c17Age while the rest of the run proceeds, and then probed with events whose
+// created_at is taken from the clock at send time. Only verdicts that a delay between
+// taking the timestamp and the middleware's check cannot flip are asserted:
+//   - lower side: created_at = now-lower-2 is two seconds too old and only gets older:
+//     it must be rejected;
+//   - upper side: created_at = now+upper-2 is inside the limit and only moves further
+//     inside: it must be forwarded; created_at = now+upper+30 must be rejected, judged
+//     only when the whole round trip took less than 20 s;
+//   - created_at = now must be forwarded when every boundary is >= 600 s away.
+
+const c17Age = 3500 * time.Millisecond
+
+type c17AgedCase struct {
+	name string
+	cfg  *c17Cfg
+	side string // "lower" or "upper"
+	lim  int64  // the limit whose boundary is probed
+	far  bool   // every boundary is >= 600 s from now
+	s    *c17Sess
+}
+
+func c17AgedCases() []*c17AgedCase {
+	var out []*c17AgedCase
+	nip := func(l *mocrelay.NIP11Limitation) *c17Cfg {
+		c := &c17Cfg{Phase: "aged", Doc: &mocrelay.NIP11{Name: "aged", Limitation: l}, FromNIP11: true}
+		if l.MaxSubscriptions != 0 {
+			c.MWs = append(c.MWs, c17MW{Kind: "quota", N: int64(l.MaxSubscriptions)})
+		}
+		if l.MaxFilters != 0 {
+			c.MWs = append(c.MWs, c17MW{Kind: "filters", N: int64(l.MaxFilters)})
+		}
+		if l.MaxLimit != 0 {
+			c.MWs = append(c.MWs, c17MW{Kind: "limit", N: int64(l.MaxLimit)})
+		}
+		if l.MaxEventTags != 0 {
+			c.MWs = append(c.MWs, c17MW{Kind: "tags", N: int64(l.MaxEventTags)})
+		}
+		if l.MaxContentLength != 0 {
+			c.MWs = append(c.MWs, c17MW{Kind: "content", N: int64(l.MaxContentLength)})
+		}
+		if l.CreatedAtLowerLimit != 0 {
+			c.MWs = append(c.MWs, c17MW{Kind: "lower", N: l.CreatedAtLowerLimit})
+		}
+		if l.CreatedAtUpperLimit != 0 {
+			c.MWs = append(c.MWs, c17MW{Kind: "upper", N: l.CreatedAtUpperLimit})
+		}
+		return c
+	}
+	hand := func(mws ...c17MW) *c17Cfg { return &c17Cfg{Phase: "aged", MWs: mws} }
+	for _, n := range []int64{5, 600, 86400} {
+		far := n >= 600
+		add := func(side, name string, cfg *c17Cfg) {
+			out = append(out, &c17AgedCase{name: fmt.Sprintf("%s/%s/%d", side, name, n), cfg: cfg, side: side, lim: n, far: far})
+		}
+		add("lower", "middleware", hand(c17MW{Kind: "lower", N: n}))
+		add("lower", "window", hand(c17MW{Kind: "window", From: -n, To: 1000}))
+		add("lower", "stack", hand(c17MW{Kind: "tags", N: 5}, c17MW{Kind: "lower", N: n}, c17MW{Kind: "content", N: 100}))
+		add("lower", "nip11-lower-only", nip(&mocrelay.NIP11Limitation{CreatedAtLowerLimit: n}))
+		add("lower", "nip11-both", nip(&mocrelay.NIP11Limitation{CreatedAtLowerLimit: n, CreatedAtUpperLimit: 900}))
+		add("lower", "nip11-all-seven", nip(&mocrelay.NIP11Limitation{MaxSubscriptions: 3, MaxFilters: 4, MaxLimit: 100, MaxEventTags: 5, MaxContentLength: 100, CreatedAtLowerLimit: n, CreatedAtUpperLimit: 900}))
+		add("upper", "middleware", hand(c17MW{Kind: "upper", N: n}))
+		add("upper", "window", hand(c17MW{Kind: "window", From: -1000, To: n}))
+		add("upper", "stack", hand(c17MW{Kind: "content", N: 100}, c17MW{Kind: "upper", N: n}, c17MW{Kind: "tags", N: 5}))
+		add("upper", "nip11-upper-only", nip(&mocrelay.NIP11Limitation{CreatedAtUpperLimit: n}))
+		add("upper", "nip11-both", nip(&mocrelay.NIP11Limitation{CreatedAtLowerLimit: 900, CreatedAtUpperLimit: n}))
+		add("upper", "nip11-all-seven", nip(&mocrelay.NIP11Limitation{MaxSubscriptions: 3, MaxFilters: 4, MaxLimit: 100, MaxEventTags: 5, MaxContentLength: 100, CreatedAtLowerLimit: 900, CreatedAtUpperLimit: n}))
+	}
+	return out
+}
+
+// c17AgedSession probes one running session of an aged configuration.
+func c17AgedSession(rep *vk.Report, c *c17AgedCase, mode string, idx int) {
+	s, cfg := c.s, c.cfg
+	start := time.Now()
+	age := start.Sub(s.built)
+	tag := fmt.Sprintf("aged%d/%s/%s", idx, c.name, mode)
+	cfg.Now = start.Unix()
+	g := &c17Gen{r: vk.RNG("C17/aged/"+mode, idx), cfg: cfg, tag: tag}
+	model := &c17Quota{n: 0, open: map[string]bool{}}
+	finished := false
+	defer func() {
+		if !finished {
+			s.finish() // cancel and wait for ServeNostr, so that the handler can be served again
+		}
+	}()
+	type probe struct {
+		what     string
+		offset   func() int64 // created_at - now
+		maxDelay time.Duration
+	}
+	var probes []probe
+	if c.far {
+		probes = append(probes, probe{"now", func() int64 { return 0 }, 5 * time.Minute})
+	}
+	if c.side == "lower" {
+		probes = append(probes, probe{"too-old-by-2s", func() int64 { return -c.lim - 2 }, 0})
+	} else {
+		probes = append(probes, probe{"inside-by-2s", func() int64 { return c.lim - 2 }, 0})
+		probes = append(probes, probe{"beyond-by-30s", func() int64 { return c.lim + 30 }, 20 * time.Second})
+	}
+	for round := 0; round < 2; round++ {
+		for _, p := range probes {
+			ev := &mocrelay.Event{Pubkey: c17Authors[0], Kind: 1, Sig: c17Sig, ID: vk.HexOf("c17 aged " + g.uid())}
+			t := time.Now()
+			cfg.Now = t.Unix()
+			ev.CreatedAt = cfg.Now + p.offset()
+			msg := &mocrelay.ClientEventMsg{Event: ev}
+			it := c17Item{orig: msg, snap: c17CloneClient(msg), class: "EVENT aged " + p.what}
+			s.recv <- msg
+			res := s.sync(g)
+			w := func(exp []c17Exp) map[string]any {
+				return map[string]any{"case": c.name, "mode": mode, "config": cfg, "age_of_the_middleware_ms": time.Since(s.built).Milliseconds(), "probe": p.what, "event": it.js(), "expected": fmt.Sprint(exp),
+					"handler_received": vk.JSON(res.D), "client_received": vk.JSON(res.O), "round_trip_ms": time.Since(t).Milliseconds()}
+			}
+			if res.status != "" {
+				if res.sig != "" {
+					rep.Violation("aged/"+res.sig, res.status, w(nil))
+				} else {
+					rep.Inconclusive(tag + ": " + res.status)
+				}
+				return
+			}
+			if p.maxDelay > 0 && time.Since(t) > p.maxDelay {
+				rep.Inconclusive(fmt.Sprintf("%s: probe %s took %v, verdict not trustworthy, session dropped", tag, p.what, time.Since(t)))
+				return
+			}
+			exp := []c17Exp{model.expect(cfg, it.snap)}
+			vs, pend, _ := c17Judge([]c17Item{it}, exp, nil, res.D, res.O, model.pend)
+			if len(vs) > 0 {
+				for _, v := range vs {
+					rep.Violation("aged/"+v.sig, fmt.Sprintf("[middleware built %v ago, %s] %s", time.Since(s.built).Round(time.Millisecond), mode, v.what), w(exp))
+				}
+				return
+			}
+			model.pend = pend
+			rep.Eval(1)
+			rep.Count("aged_probes_"+p.what, 1)
+			rep.Nontrivial("aged|" + c.name + "|" + mode + "|" + p.what)
+		}
+	}
+	finished = true
+	if !c17EndSession(rep, s, cfg, tag, []*c17Quota{model}, start) {
 		return
 	}
-	rep.Count(phase+"_sessions", 1)
-	if models[0].dead && len(models) > 1 {
-		rep.Count("quota_sessions_consistent_only_with_outer_model", 1)
+	rep.Count("aged_sessions", 1)
+	rep.Seen("aged_cases", c.name+"/"+mode)
+	c17AgedMin.CompareAndSwap(0, int64(age))
+	for {
+		cur := c17AgedMin.Load()
+		if int64(age) >= cur || c17AgedMin.CompareAndSwap(cur, int64(age)) {
+			break
+		}
 	}
-	if len(models) > 1 && models[1].dead {
-		rep.Count("quota_sessions_consistent_only_with_inner_model", 1)
+}
+
+var c17AgedMin atomic.Int64
+
+func c17AgedScenario(rep *vk.Report) {
+	cases := c17AgedCases()
+	var live []*c17AgedCase
+	for _, c := range cases {
+		c.s = c17Build(c.cfg)
+		if c.s.buildPanic != "" {
+			rep.Violation("aged/panic/applying-middleware", "applying the middleware to a handler panicked: "+c.s.buildPanic, map[string]any{"config": c.cfg})
+			continue
+		}
+		c.s.serve() // first session: starts now and stays idle while it ages
+		live = append(live, c)
 	}
+	time.Sleep(c17Age) // the scenario is the passage of time itself, nothing is synchronised by this
+	vk.Parallel(len(live), func(i int) {
+		c := live[i]
+		c17AgedSession(rep, c, "session-started-before-aging", i)
+		c.s.reserve() // same handler value, fresh session
+		c17AgedSession(rep, c, "session-started-after-aging", i)
+	})
 }
 
 // ---------------------------------------------------------------------------
@@ -1693,12 +1927,17 @@ func c17NIP11Doc(r *rand.Rand, variant int) (*mocrelay.NIP11, []c17MW) {
 
 func TestVerif_C17(t *testing.T) {
 	rep := vk.NewReport(t, "C17", "exploration")
-	rep.Rule = "sessions through the real wrapper mw(recordingHandler).ServeNostr: (single) each of the 10 stateless limit middlewares alone, (stack) 2-6 of them in a seeded order, (nip11) BuildMiddlewareFromNIP11 for every subset of the seven limits (max_subscriptions, max_filters, max_limit, max_event_tags, max_content_length, created_at lower/upper) and for documents without a limitation block; a session is 8-30 batches of 1-4 client messages (EVENT/REQ/COUNT/CLOSE/AUTH with sizes 0, limit-1, limit, limit+1 and far above each configured limit, multi-filter REQ/COUNT with the violating limit first/last/mixed, timestamps >= 90 s from every moving boundary, sub ids/content never with byte and rune length on different sides of a limit) interleaved with 0-3 scripted server messages of all seven types; every batch is closed by a sentinel round trip and judged: handler-side log == sent messages that respect every limit (deep-equal to the pre-send copy, in order), client-side log == scripted server messages (deep-equal, in order) plus exactly one OK(false,id)/CLOSED(sub id) per violating message (a rejection may also arrive in a later window of the same session; it is missing only if still absent after a final bounded wait and the end of the session); evaluation = one judged client message; non-trivial = every judged message; distinct = distinct (phase, middleware kind, message type, size classes, verdict)"
+	rep.Rule = "sessions through the real wrapper mw(recordingHandler).ServeNostr: (single) each of the 10 stateless limit middlewares alone, (stack) 2-6 of them in a seeded order, (nip11) BuildMiddlewareFromNIP11 for every subset of the seven limits (max_subscriptions, max_filters, max_limit, max_event_tags, max_content_length, created_at lower/upper) and for documents without a limitation block; a session is 8-30 batches of 1-4 client messages (EVENT/REQ/COUNT/CLOSE/AUTH with sizes 0, limit-1, limit, limit+1 and far above each configured limit, multi-filter REQ/COUNT with the violating limit first/last/mixed, timestamps >= 90 s from every moving boundary, sub ids/content never with byte and rune length on different sides of a limit) interleaved with 0-3 scripted server messages of all seven types; every batch is closed by a sentinel round trip and judged: handler-side log == sent messages that respect every limit (deep-equal to the pre-send copy, in order), client-side log == scripted server messages (deep-equal, in order) plus exactly one OK(false,id)/CLOSED(sub id) per violating message (a rejection may also arrive in a later window of the same session; it is missing only if still absent after a final bounded wait and the end of the session); (aged) 36 configurations with a created_at lower/upper limit (single middleware, window middleware, stack, three NIP-11 chains; limits 5/600/86400 s) are built once, left alone for 3.5 s and then probed, on the session started before the wait and on a fresh session of the same handler, with events stamped from the clock at send time: now-lower-2 must be rejected, now+upper-2 forwarded, now+upper+30 rejected (round trip < 20 s), now forwarded when every boundary is >= 600 s away; evaluation = one judged client message; non-trivial = every judged message; distinct = distinct (phase, middleware kind, message type, size classes, verdict)"
 	rep.Assume("created_at verdicts use the wall clock read at session start; generated timestamps keep 90 s from every boundary and sessions slower than 25 s are discarded")
+	rep.Assume("aged scenario: a delay between stamping an event and the middleware's check can only make now-lower-2 older and now+upper-2 less far in the future, so these two verdicts do not depend on scheduling; the wall clock is assumed not to step backwards during the run")
 	rep.Assume("CLOSE messages naming an over-long sub id, AUTH messages whose event violates an event limit, and strings whose byte and rune lengths fall on different sides of a limit are not generated (the statement does not decide them)")
 	rep.Assume("the statement fixes no order between a rejection and unrelated server messages: a rejection not yet seen when the sentinel of its batch returns stays owed until the session has ended (final wait of 15 s, inbound channel closed, ServeNostr returned); duplicates and rejections nobody is owed are violations in whatever window they arrive")
 	rep.Assume("the statement does not fix the position of max_subscriptions in the NIP-11 chain: a session must be consistent with the quota counting either every REQ or only the REQs that pass the other limits")
 	defer rep.Finish()
+
+	// (0) aged middlewares, in parallel with the rest of the run
+	agedDone := make(chan struct{})
+	go func() { defer close(agedDone); c17AgedScenario(rep) }()
 
 	// (1) single middlewares
 	perKind := vk.N(100, 1500)
@@ -1748,6 +1987,11 @@ func TestVerif_C17(t *testing.T) {
 		c17RunSession(rep, cfg, r, fmt.Sprintf("n%d", i), n)
 	})
 
+	<-agedDone
+	rep.Set("aged_min_age_of_a_probed_middleware_ms", time.Duration(c17AgedMin.Load()).Milliseconds())
+	rep.Require(rep.Counter("aged_sessions") >= 72, "not all 36 aged configurations were probed in both modes")
+	rep.Require(rep.Counter("aged_probes_too-old-by-2s") >= 72 && rep.Counter("aged_probes_inside-by-2s") >= 72 && rep.Counter("aged_probes_beyond-by-30s") >= 72, "too few aged probes")
+	rep.Require(c17AgedMin.Load() >= int64(3*time.Second), "a probed middleware was younger than 3 s")
 	if n := rep.Counter("sessions_skipped_after_lost_rejections"); n > 0 {
 		rep.Set("sessions_not_run_after_six_sessions_lost_a_rejection", n)
 	}
